@@ -3,24 +3,36 @@
 (* C03 -- object-level layer: Version objects are MUTABLE and long-lived.  *)
 (*                                                                         *)
 (* An object is [full |-> the version string, key |-> everything the       *)
-(* implementation derives from it (parsed parts, prepared run lists, hash  *)
-(* key)].  Object 1 is (v1, ck1), object 2 is (v2, ck2); out is what the   *)
-(* last comparison of the two objects answered: out.impl / out.ceq /       *)
+(* implementation derives from it (its components, prepared run lists,     *)
+(* hash key)].  Object 1 is (v1, ck1), object 2 is (v2, ck2); out is what  *)
+(* the last comparison of the two objects answered: out.impl / out.ceq /   *)
 (* out.keq are computed from the CACHED keys (what an implementation that  *)
 (* memoises would use), out.ref / out.rev from the CURRENT strings (the    *)
 (* dpkg reference: what the property demands).                             *)
 (*                                                                         *)
 (* Assign* model `o.full_version = s` and the assignment of one component  *)
-(* (`o.epoch = e`, `o.upstream_version = u`, `o.debian_revision = r`; the  *)
-(* string is recomposed from the components as _update_full_version does). *)
-(* The design requirement is that an assignment RECOMPUTES the key:        *)
-(* KeyFresh, and therefore Agree and HashConsistent, hold in every state   *)
-(* reachable by any sequence of assignments (the state space is closed).   *)
+(* (`o.epoch = e`, `o.upstream_version = u`, `o.debian_revision = r`): the *)
+(* string is RECOMPOSED from the object's components as                    *)
+(* _update_full_version does, and the key -- components included -- is     *)
+(* recomputed from the DECOMPOSITION OF THE RECOMPOSED STRING.  The        *)
+(* assigned values include the boundary-moving ones (Boundary = TRUE):     *)
+(* upstream values containing '-' or ':' ("0-1", "1:0"), revisions         *)
+(* containing '-' ("1-0"), and None for the revision / epoch of an object  *)
+(* whose upstream part contains '-' / ':' -- after these the last '-' /    *)
+(* first ':' of the string is no longer where the assigned components had  *)
+(* it.  Only assignments whose recomposed string is in the domain D2 are   *)
+(* modelled (the others are rejected or unspecified: C14).                 *)
+(* The design requirement: KeyFresh, and therefore Agree and               *)
+(* HashConsistent, hold in every state reachable by any sequence of        *)
+(* assignments (the state space is closed).                                *)
 (*                                                                         *)
-(* Negative control  StaleKey = TRUE : the key survives the assignment     *)
-(* (memoised comparison key / hash / parsed tuple not invalidated) -> TLC  *)
-(* reports Agree, and (separately) HashConsistent, violated after one      *)
-(* assignment.                                                             *)
+(* Negative controls:                                                      *)
+(*   StaleKey  = TRUE : the key survives the assignment (memoised          *)
+(*               comparison key / hash / parsed tuple not invalidated)     *)
+(*   NoResplit = TRUE : after a COMPONENT assignment the key is built from *)
+(*               the assigned components, the recomposed string is not     *)
+(*               split again (stale components after a boundary move)      *)
+(* each makes TLC report Agree, and (separately) HashConsistent, violated. *)
 (*                                                                         *)
 (* If EmitStride > 0 the selected transitions are printed as MUT lines     *)
 (*  [v1, v2, how, arg, v1', ref, rev, ceq, ref', rev', ceq']  (expected    *)
@@ -30,17 +42,26 @@
 (***************************************************************************)
 EXTENDS DpkgVersionMC
 
-CONSTANT StaleKey
+CONSTANTS StaleKey, NoResplit,
+          Boundary        \* TRUE: also the boundary-moving assignment values
 
 VARIABLES ck1, ck2
 ovars == <<v1, v2, v3, out, ck1, ck2>>
 
-ASSUME ~Seps      \* recomposition from components stays inside Vers (and outside D2's unspecified zone)
+ASSUME ~Seps      \* separators inside components come from the assignments below, not from Vers
+
+\* what an implementation derives from the string s / from given components without looking at
+\* the string again
+InfoFromParts(e, u, rv) ==
+    [p |-> [he |-> e # <<>>, e |-> e, u |-> u, hr |-> rv # <<>>, r |-> rv],
+     i |-> [e |-> IntVal(OrZero(e)), u |-> Runs(OrZero(u)), r |-> Runs(OrZero(rv))],
+     c |-> <<SkipZeros(e), CanonPart(u), CanonPart(rv)>>,
+     k |-> <<StrInt(OrZero(e)), IKeyPart(OrZero(u)), IKeyPart(OrZero(rv))>>]
 
 \* what comparing object (f1, c1) with object (f2, c2) answers / should answer
 Observe(f1, c1, f2, c2) ==
-    [NoRes EXCEPT !.ref  = CmpParsed(InfoOf[f1].p, InfoOf[f2].p),
-                  !.rev  = CmpParsed(InfoOf[f2].p, InfoOf[f1].p),
+    [NoRes EXCEPT !.ref  = DpkgCmp(f1, f2),
+                  !.rev  = DpkgCmp(f2, f1),
                   !.impl = ICmpPrepared(c1.i, c2.i),
                   !.ceq  = (c1.c = c2.c),
                   !.keq  = (c1.k = c2.k)]
@@ -53,24 +74,37 @@ OInit == /\ v1 \in Vers /\ v2 \in Vers /\ v3 = None
 SelectedMut(s, n) == EmitStride > 0 /\ (Chk(v1, 1) * 31 + Chk(v2, 7) + Chk(s, 3) * 17 + Len(v1)) % n = EmitOffset % n
 DenseStride == (EmitStride + 3) \div 4
 
-Assign(how, arg, s) ==
+\* object 1 is assigned; s is the string it then prints, newkey what a correct implementation holds
+Assign(how, arg, s, lazykey) ==
+    /\ InDomain(s)
     /\ v1' = s
-    /\ ck1' = IF StaleKey THEN ck1 ELSE InfoOf[s]
+    /\ ck1' = IF StaleKey THEN ck1 ELSE IF NoResplit THEN lazykey ELSE Info(s)
     /\ out' = Observe(s, ck1', v2, ck2)
     /\ UNCHANGED <<v2, v3, ck2>>
     /\ (SelectedMut(s, IF how = "full" THEN EmitStride ELSE DenseStride) =>
-          PrintT(<<"MUT", ToJson(<<v1, v2, how, arg, s, out.ref, out.rev, InfoOf[v1].c = InfoOf[v2].c,
-                                   out'.ref, out'.rev, InfoOf[s].c = InfoOf[v2].c>>)>>))
+          PrintT(<<"MUT", ToJson(<<v1, v2, how, arg, s, out.ref, out.rev, Canon(v1) = Canon(v2),
+                                   out'.ref, out'.rev, Canon(s) = Canon(v2)>>)>>))
 
-Parts1 == InfoOf[v1].p
-AssignFull     == \E s \in Vers : Assign("full", s, s)
-AssignEpoch    == \E e \in Epochs : Assign("epoch", e, Join(e, Parts1.u, Parts1.r))
-AssignUpstream == \E u \in Ups(<<>>, <<>>) : Assign("upstream", u, Join(Parts1.e, u, Parts1.r))
-AssignRevision == \E rv \in Revs : Assign("revision", rv, Join(Parts1.e, Parts1.u, rv))
+\* the components the object holds (= the decomposition of v1 when the key is fresh)
+P1 == ck1.p
+One   == {<<x>> : x \in UpChars}
+\* boundary-moving values: "x-y" and "d:y" as upstream, "x-0" as revision
+UpsB  == IF Boundary THEN {x \o <<Hyphen>> \o y : x, y \in One} \cup
+                          {x \o <<Colon>> \o y : x \in {d \in One : IsDigit(d[1])}, y \in One}
+         ELSE {}
+RevsB == IF Boundary THEN {x \o <<Hyphen, Zero>> : x \in One} ELSE {}
+
+AssignFull     == \E s \in Vers : Assign("full", s, s, Info(s))
+AssignEpoch    == \E e \in Epochs :
+                     Assign("epoch", e, Join(e, P1.u, P1.r), InfoFromParts(e, P1.u, P1.r))
+AssignUpstream == \E u \in Ups(<<>>, <<>>) \cup UpsB :
+                     Assign("upstream", u, Join(P1.e, u, P1.r), InfoFromParts(P1.e, u, P1.r))
+AssignRevision == \E rv \in Revs \cup RevsB :
+                     Assign("revision", rv, Join(P1.e, P1.u, rv), InfoFromParts(P1.e, P1.u, rv))
 
 ONext == AssignFull \/ AssignEpoch \/ AssignUpstream \/ AssignRevision
 OSpec == OInit /\ [][ONext]_ovars
 
-KeyFresh == ck1 = InfoOf[v1] /\ ck2 = InfoOf[v2]
+KeyFresh == ck1 = Info(v1) /\ ck2 = Info(v2)
 \* Agree, Antisym, HashConsistent, HashImpl: as defined in DpkgVersionMC, over out
 =============================================================================
